@@ -56,6 +56,8 @@ THEOREMS = [
     "Jinns.Loaders.multi_entry_empty_iff",
     "Jinns.Loaders.multi_entry_aligned",
     "Jinns.Loaders.rowIs_batchOf",
+    "Jinns.Loaders.c15ObsBatch_batchOf",
+    "Jinns.Loaders.obs_history_holds",
 ]
 LEAN_MODULES = ["JinnsProofs.C15"]
 RULE = ("cases = an observation loader (table shapes, observed parameters, b, number of get_batch calls), a parameter "
@@ -157,7 +159,7 @@ def gen_cases(rng, tier):
     cases = []
     sizes = range(1, 13) if deep else [1, 2, 3, 4, 5, 7, 8, 12]
     for n in sizes:
-        for _ in range(3 if deep else 1):
+        for _ in range(6 if deep else 1):
             b = rng.randint(1, n)
             cases.append(_obs_case(rng, n, b, _req(rng, n, b, deep)))
         b = rng.choice([d for d in range(1, n + 1) if n % d == 0])
@@ -165,7 +167,7 @@ def gen_cases(rng, tier):
     cases.append(_obs_case(rng, 6, 2, 7, pin_kind="2d", dup=True, neq=1))
     for n in sizes:
         for method in ("uniform", "grid"):
-            for _ in range(2 if deep else 1):
+            for _ in range(4 if deep else 1):
                 b = rng.randint(1, n)
                 cases.append(_param_case(rng, n, b, method, _req(rng, n, b, deep)))
     # the two documented shapes side by side, user data outside the key's range, both methods
@@ -175,7 +177,7 @@ def gen_cases(rng, tier):
             {"name": "mu", "range": [0.0, 1.0], "user": {**_spec(5, 6, "2d", 1), "scale": 1.0, "shift": 100.0}},
             {"name": "kappa", "range": [-3.0, -1.0], "user": None}]))
     for n in ([2, 3, 4, 6, 8] if deep else [2, 4, 6]):
-        for _ in range(3 if deep else 2):
+        for _ in range(6 if deep else 2):
             b = rng.randint(1, n)
             cases.append(_multi_case(rng, n, b, _req(rng, n, b, deep)))
     # ---- malformed stream
